@@ -527,6 +527,11 @@ func (rm *relayManager) handleCreateRelayRequest(v cert.Version, h *HostInfo, f 
 		if !rm.GetAmRelay() {
 			return
 		}
+		if !slices.Contains(h.vpnAddrs, from) {
+			// The relay state on the onward leg is keyed by this address, it must belong to the peer asking for it
+			logMsg.Error("Discarding relay request, relayFrom is not an address of the requesting peer")
+			return
+		}
 		peer := rm.hostmap.QueryVpnAddr(target)
 		if peer == nil {
 			// Try to establish a connection to this host. If we get a future relay request,
